@@ -43,6 +43,12 @@ func init() {
 	gen.RegisterOp("c02", "e2e-f27", func(c *gen.Ctx, raw json.RawMessage) any {
 		return c02E2E(c, gen.Into[c02E2EIn](raw))
 	})
+	gen.RegisterOp("c02", "e2e-f28", func(c *gen.Ctx, raw json.RawMessage) any {
+		return c02E2E(c, gen.Into[c02E2EIn](raw))
+	})
+	gen.RegisterOp("c02", "libexpected", func(_ *gen.Ctx, raw json.RawMessage) any {
+		return c02LibExpected(gen.Into[c02LibIn](raw))
+	})
 }
 
 // ---- abstract descriptions (mirrored by lean/ConfModel/Model/Echo.lean) ----
@@ -75,14 +81,28 @@ type c02TC struct {
 	// such field, which is exactly that claim
 	LaterDefs []c02LaterDef `json:"laterDefs,omitempty"`
 	FdFlag  bool     `json:"fdFlag"`
+	// Get: use_get_http_method.  Method: "" (service and method left to the runner), "explicit"
+	// (service and method given and equal to the defaults), "idempotent" (IdempotentUnary with an
+	// IdempotentUnaryRequest), "unimplemented" (Unimplemented with an UnimplementedRequest).
+	// Codec (1 proto, 2 json): the permutation's codec, which the generator reads for a GET case
+	// (ops expected / libexpected; in e2e runs every permutation carries its own).
+	// Explicit: an expected_response given in the suite (the generator must leave it alone).
+	// XFail: hint that the explicit expectation is wrong on purpose (only used to skip re-runs;
+	// the driver checks it against the model's prediction).
+	Get      bool       `json:"get,omitempty"`
+	Method   string     `json:"method,omitempty"`
+	Codec    int        `json:"codec,omitempty"`
+	Explicit *c02Result `json:"explicit,omitempty"`
+	XFail    bool       `json:"xfail,omitempty"`
 }
 type c02LaterDef struct {
 	At  int    `json:"at"` // index of the request message (>= 1)
 	Def c02Def `json:"def"`
 }
 type c02Info struct {
-	Hdrs []c02Hdr `json:"hdrs"`
-	Reqs []int    `json:"reqs"`
+	Hdrs  []c02Hdr `json:"hdrs"`
+	Reqs  []int    `json:"reqs"`
+	Query []c02Hdr `json:"query"` // connect_get_info.query_params ([] = no ConnectGetInfo or an empty one)
 }
 type c02Detail struct {
 	Other *int     `json:"other,omitempty"`
@@ -181,11 +201,27 @@ var c02StreamTypes = map[string]conformancev1.StreamType{
 	"fullDuplex":   conformancev1.StreamType_STREAM_TYPE_FULL_DUPLEX_BIDI_STREAM,
 }
 
+var c02DefaultMethods = map[string]string{
+	"unary": "Unary", "clientStream": "ClientStream", "serverStream": "ServerStream", "halfDuplex": "BidiStream", "fullDuplex": "BidiStream",
+}
+
+const c02ServiceName = "connectrpc.conformance.v1.ConformanceService"
+
 func c02TestCase(tc c02TC) *conformancev1.TestCase {
 	req := &conformancev1.ClientCompatRequest{
-		TestName:       tc.Name,
-		StreamType:     c02StreamTypes[tc.St],
-		RequestHeaders: c02Headers(tc.ReqHdrs),
+		TestName:         tc.Name,
+		StreamType:       c02StreamTypes[tc.St],
+		RequestHeaders:   c02Headers(tc.ReqHdrs),
+		UseGetHttpMethod: tc.Get,
+		Codec:            conformancev1.Codec(tc.Codec),
+	}
+	switch tc.Method {
+	case "explicit":
+		req.Service, req.Method = proto.String(c02ServiceName), proto.String(c02DefaultMethods[tc.St])
+	case "idempotent":
+		req.Service, req.Method = proto.String(c02ServiceName), proto.String("IdempotentUnary")
+	case "unimplemented":
+		req.Service, req.Method = proto.String(c02ServiceName), proto.String("Unimplemented")
 	}
 	later := map[int]c02Def{}
 	for _, ld := range tc.LaterDefs {
@@ -200,20 +236,29 @@ func c02TestCase(tc c02TC) *conformancev1.TestCase {
 			first = true
 			tc.Def = ld
 		}
-		switch tc.St {
-		case "unary":
+		switch {
+		case tc.Method == "unimplemented":
+			// no fields: neither a definition nor data
+			m = &conformancev1.UnimplementedRequest{}
+		case tc.Method == "idempotent":
+			r := &conformancev1.IdempotentUnaryRequest{RequestData: c02ReqData(id)}
+			if first {
+				r.ResponseDefinition = c02UnaryDef(tc.Def)
+			}
+			m = r
+		case tc.St == "unary":
 			r := &conformancev1.UnaryRequest{RequestData: c02ReqData(id)}
 			if first {
 				r.ResponseDefinition = c02UnaryDef(tc.Def)
 			}
 			m = r
-		case "clientStream":
+		case tc.St == "clientStream":
 			r := &conformancev1.ClientStreamRequest{RequestData: c02ReqData(id)}
 			if first {
 				r.ResponseDefinition = c02UnaryDef(tc.Def)
 			}
 			m = r
-		case "serverStream":
+		case tc.St == "serverStream":
 			r := &conformancev1.ServerStreamRequest{RequestData: c02ReqData(id)}
 			if first {
 				r.ResponseDefinition = c02StreamDef(tc.Def)
@@ -232,7 +277,59 @@ func c02TestCase(tc c02TC) *conformancev1.TestCase {
 		a, _ := anypb.New(m)
 		req.RequestMessages = append(req.RequestMessages, a)
 	}
-	return &conformancev1.TestCase{Request: req}
+	out := &conformancev1.TestCase{Request: req}
+	if tc.Explicit != nil {
+		out.ExpectedResponse = c02ResultProto(tc.Explicit, tc, req.RequestMessages)
+	}
+	return out
+}
+
+// c02ResultProto: an abstract result as a ClientResponseResult (explicit expected responses).  A
+// request id that is one of the test case's stands for that request message; any other id for a
+// UnaryRequest that was never sent.
+func c02ResultProto(r *c02Result, tc c02TC, msgs []*anypb.Any) *conformancev1.ClientResponseResult {
+	info := func(in *c02Info) *conformancev1.ConformancePayload_RequestInfo {
+		if in == nil {
+			return nil
+		}
+		ri := &conformancev1.ConformancePayload_RequestInfo{RequestHeaders: c02Headers(in.Hdrs)}
+		if len(in.Query) > 0 {
+			ri.ConnectGetInfo = &conformancev1.ConformancePayload_ConnectGetInfo{QueryParams: c02Headers(in.Query)}
+		}
+		for _, id := range in.Reqs {
+			var a *anypb.Any
+			for i, have := range tc.Reqs {
+				if have == id && i < len(msgs) {
+					a = msgs[i]
+					break
+				}
+			}
+			if a == nil {
+				a, _ = anypb.New(&conformancev1.UnaryRequest{RequestData: c02ReqData(id)})
+			}
+			ri.Requests = append(ri.Requests, a)
+		}
+		return ri
+	}
+	out := &conformancev1.ClientResponseResult{ResponseHeaders: c02Headers(r.Hdrs), ResponseTrailers: c02Headers(r.Trls)}
+	for _, p := range r.Payloads {
+		out.Payloads = append(out.Payloads, &conformancev1.ConformancePayload{Data: c02Unhex(p.Data), RequestInfo: info(p.Info)})
+	}
+	if r.Err != nil {
+		e := &conformancev1.Error{Code: conformancev1.Code(r.Err.Code), Message: r.Err.Msg}
+		for _, d := range r.Err.Details {
+			switch {
+			case d.Info != nil:
+				a, _ := anypb.New(info(d.Info))
+				e.Details = append(e.Details, a)
+			case d.Other != nil:
+				a, _ := anypb.New(&conformancev1.Header{Name: fmt.Sprintf("detail-%d", *d.Other), Value: []string{"v", fmt.Sprint(*d.Other)}})
+				e.Details = append(e.Details, a)
+			}
+		}
+		out.Error = e
+	}
+	return out
 }
 
 // ---- proto -> abstract ----
@@ -269,9 +366,9 @@ func c02InfoOut(ri *conformancev1.ConformancePayload_RequestInfo, ordered bool) 
 	}
 	out := &c02Info{Reqs: []int{}}
 	if ordered {
-		out.Hdrs = c02HdrsOutOrdered(ri.RequestHeaders)
+		out.Hdrs, out.Query = c02HdrsOutOrdered(ri.RequestHeaders), c02HdrsOutOrdered(ri.GetConnectGetInfo().GetQueryParams())
 	} else {
-		out.Hdrs = c02HdrsOut(ri.RequestHeaders)
+		out.Hdrs, out.Query = c02HdrsOut(ri.RequestHeaders), c02HdrsOut(ri.GetConnectGetInfo().GetQueryParams())
 	}
 	for _, a := range ri.Requests {
 		id := -1
@@ -341,6 +438,98 @@ func c02Expected(tc c02TC) c02ExpectedOut {
 	return c02ExpectedOut{Result: c02ResultOut(res, true)}
 }
 
+// ---- op: libexpected (what populateExpectedResponses leaves in the library) ----
+
+// c02LibIn: the two suites of an e2e run (V: every protocol; VG: reliesOnConnectGet, Connect only,
+// relevantCompressions GetComps), loaded with a config of the given features — no RPC is made.
+type c02LibIn struct {
+	Mode     string  `json:"mode"` // client | server | both (grpc peers as in the e2e op)
+	Versions []int   `json:"versions"`
+	Protos   []int   `json:"protocols"`
+	Codecs   []int   `json:"codecs"`
+	Comps    []int   `json:"compressions"`
+	Cases    []c02TC `json:"cases"`
+	GetCases []c02TC `json:"getCases,omitempty"`
+	GetComps []int   `json:"getComps,omitempty"`
+}
+type c02LibPerm struct {
+	Name     string     `json:"name"`
+	Case     int        `json:"case"`
+	G        bool       `json:"g,omitempty"`
+	Codec    int        `json:"codec"`
+	Get      bool       `json:"get,omitempty"`
+	Service  string     `json:"service"`
+	Method   string     `json:"method"`
+	Expected *c02Result `json:"expected"`
+}
+type c02LibOut struct {
+	Perms []c02LibPerm `json:"perms"`
+	Err   string       `json:"err,omitempty"`
+}
+
+// c02Suites: the suite files of a run and the config text
+func c02Suites(dir string, cases, getCases []c02TC, getComps []int, versions, protos, codecs, comps []int) (map[string][]byte, []string, string) {
+	for i := range cases {
+		cases[i].Name = fmt.Sprintf("t%d", i)
+		cases[i].Codec = 0
+	}
+	for i := range getCases {
+		getCases[i].Name = fmt.Sprintf("g%d", i)
+		getCases[i].Codec = 0
+	}
+	files := map[string][]byte{}
+	var testFiles []string
+	if len(cases) > 0 || len(getCases) == 0 {
+		suitePath := filepath.Join(dir, "suite.yaml")
+		files[suitePath] = c02SuiteJSON(cases, false, nil)
+		testFiles = append(testFiles, suitePath)
+	}
+	if len(getCases) > 0 {
+		suitePath := filepath.Join(dir, "suiteg.yaml")
+		files[suitePath] = c02SuiteJSON(getCases, true, getComps)
+		testFiles = append(testFiles, suitePath)
+	}
+	return files, testFiles, c02CfgYAMLGet(versions, protos, codecs, comps, len(getCases) > 0)
+}
+
+// the case a permutation belongs to: its simple name is t<i> (suite V) or g<i> (suite VG)
+func c02CaseOf(name string) (bool, int) {
+	last := name[strings.LastIndex(name, "/")+1:]
+	var idx int
+	if strings.HasPrefix(last, "g") {
+		fmt.Sscanf(last, "g%d", &idx)
+		return true, idx
+	}
+	fmt.Sscanf(last, "t%d", &idx)
+	return false, idx
+}
+
+func c02ModeOf(m string) (conformancev1.TestSuite_TestMode, bool, bool) {
+	switch m {
+	case "server", "grpcserver":
+		return conformancev1.TestSuite_TEST_MODE_SERVER, true, false
+	case "both":
+		return conformancev1.TestSuite_TEST_MODE_UNSPECIFIED, true, true
+	}
+	return conformancev1.TestSuite_TEST_MODE_CLIENT, false, true
+}
+
+func c02LibExpected(in c02LibIn) c02LibOut {
+	files, _, cfg := c02Suites("/lib", in.Cases, in.GetCases, in.GetComps, in.Versions, in.Protos, in.Codecs, in.Comps)
+	mode, clientGRPC, serverGRPC := c02ModeOf(in.Mode)
+	perms, err := cc.VerifC02LoadPerms(files, cfg, mode, clientGRPC, serverGRPC)
+	if err != nil {
+		return c02LibOut{Err: "error"}
+	}
+	out := c02LibOut{Perms: []c02LibPerm{}}
+	for _, p := range perms {
+		g, idx := c02CaseOf(p.Name)
+		out.Perms = append(out.Perms, c02LibPerm{Name: p.Name, Case: idx, G: g, Codec: int(p.Codec), Get: p.UseGet,
+			Service: p.Service, Method: p.Method, Expected: c02ResultOut(p.Expected, true)})
+	}
+	return out
+}
+
 // ---- op: load (suite loading never crashes) ----
 
 type c02LoadIn struct {
@@ -373,6 +562,12 @@ type c02E2EIn struct {
 	Codecs   []int   `json:"codecs"`
 	Comps    []int   `json:"compressions"`
 	Cases    []c02TC `json:"cases"`
+	// GetCases: a second suite "VG" in the same run: reliesOnConnectGet, relevantProtocols
+	// [PROTOCOL_CONNECT], every codec and compression of the config (which then declares
+	// supportsConnectGet: true); its cases are named g<i>
+	GetCases []c02TC `json:"getCases,omitempty"`
+	// GetComps: relevantCompressions of suite VG (empty: every compression of the config)
+	GetComps []int `json:"getComps,omitempty"`
 	NoRerun  bool    `json:"noRerun,omitempty"` // failing permutations are not re-run alone (ops whose failures are 20 s time-outs)
 	// Trace: the runner's --trace (Flags.HTTPTrace): the in-process reference peers run inside the
 	// HTTP tracing wrappers (tracer.TracingHandler around the reference server's checks,
@@ -382,6 +577,8 @@ type c02E2EIn struct {
 type c02PermOut struct {
 	Name    string     `json:"name"`
 	Case    int        `json:"case"`
+	G       bool       `json:"g,omitempty"`     // a case of suite VG (index into getCases)
+	Codec   int        `json:"codec,omitempty"` // the permutation's codec (1 proto, 2 json)
 	Verdict string     `json:"verdict"` // pass | fail
 	Why     string     `json:"why,omitempty"`
 	Actual  *c02Result `json:"actual"`
@@ -393,6 +590,10 @@ type c02E2EOut struct {
 }
 
 func c02CfgYAML(versions, protos, codecs, comps []int) string {
+	return c02CfgYAMLGet(versions, protos, codecs, comps, false)
+}
+
+func c02CfgYAMLGet(versions, protos, codecs, comps []int, get bool) string {
 	var b strings.Builder
 	b.WriteString("features:\n")
 	list := func(key string, vals []int, names map[int32]string) {
@@ -405,7 +606,8 @@ func c02CfgYAML(versions, protos, codecs, comps []int) string {
 	list("protocols", protos, conformancev1.Protocol_name)
 	list("codecs", codecs, conformancev1.Codec_name)
 	list("compressions", comps, conformancev1.Compression_name)
-	b.WriteString("  supportsTls: false\n  supportsHalfDuplexBidiOverHttp1: true\n  supportsConnectGet: false\n  supportsMessageReceiveLimit: false\n")
+	b.WriteString("  supportsTls: false\n  supportsHalfDuplexBidiOverHttp1: true\n  supportsMessageReceiveLimit: false\n")
+	fmt.Fprintf(&b, "  supportsConnectGet: %v\n", get)
 	return b.String()
 }
 
@@ -426,8 +628,14 @@ func (p *c02Printer) PrefixPrintf(prefix, msg string, args ...any) {
 
 var c02Seq atomic.Int64
 
-func c02SuiteJSON(cases []c02TC) []byte {
+func c02SuiteJSON(cases []c02TC, get bool, getComps []int) []byte {
 	suite := &conformancev1.TestSuite{Name: "V"}
+	if get {
+		suite = &conformancev1.TestSuite{Name: "VG", ReliesOnConnectGet: true, RelevantProtocols: []conformancev1.Protocol{conformancev1.Protocol_PROTOCOL_CONNECT}}
+		for _, z := range getComps {
+			suite.RelevantCompressions = append(suite.RelevantCompressions, conformancev1.Compression(z))
+		}
+	}
 	for _, tc := range cases {
 		suite.TestCases = append(suite.TestCases, c02TestCase(tc))
 	}
@@ -439,18 +647,15 @@ func c02E2E(c *gen.Ctx, in c02E2EIn) c02E2EOut {
 	dir := filepath.Join(c.WorkDir, fmt.Sprintf("c02-%d-%d", os.Getpid(), c02Seq.Add(1)))
 	os.MkdirAll(dir, 0o755)
 	defer os.RemoveAll(dir)
-	for i := range in.Cases {
-		in.Cases[i].Name = fmt.Sprintf("t%d", i)
-	}
-	suiteBytes := c02SuiteJSON(in.Cases)
-	suitePath := filepath.Join(dir, "suite.yaml")
-	cfg := c02CfgYAML(in.Versions, in.Protos, in.Codecs, in.Comps)
+	files, testFiles, cfg := c02Suites(dir, in.Cases, in.GetCases, in.GetComps, in.Versions, in.Protos, in.Codecs, in.Comps)
 	cfgPath := filepath.Join(dir, "cfg.yaml")
-	os.WriteFile(suitePath, suiteBytes, 0o644)
+	for path, data := range files {
+		os.WriteFile(path, data, 0o644)
+	}
 	os.WriteFile(cfgPath, []byte(cfg), 0o644)
 	capPath := filepath.Join(dir, "responses.bin")
 	self, _ := os.Executable()
-	flags := &cc.Flags{ConfigFile: cfgPath, TestFiles: []string{suitePath}, MaxServers: 4, Parallelism: 8, ServerBind: "127.0.0.1", HTTPTrace: in.Trace}
+	flags := &cc.Flags{ConfigFile: cfgPath, TestFiles: testFiles, MaxServers: 4, Parallelism: 8, ServerBind: "127.0.0.1", HTTPTrace: in.Trace}
 	mode := conformancev1.TestSuite_TEST_MODE_CLIENT
 	clientGRPC, serverGRPC := false, true
 	if in.Mode == "server" {
@@ -478,10 +683,18 @@ func c02E2E(c *gen.Ctx, in c02E2EIn) c02E2EOut {
 		flags.ClientCommand = []string{self, "c02peer", "refclient", capPath}
 	}
 	var out c02E2EOut
-	names, err := cc.VerifC02Load(map[string][]byte{suitePath: suiteBytes}, cfg, mode, clientGRPC, serverGRPC)
+	perms, err := cc.VerifC02LoadPerms(files, cfg, mode, clientGRPC, serverGRPC)
 	if err != nil {
 		out.RunErr = "load: " + err.Error()
 		return out
+	}
+	caseOf := c02CaseOf
+	xfail := func(name string) bool {
+		g, idx := caseOf(name)
+		if g {
+			return idx < len(in.GetCases) && in.GetCases[idx].XFail
+		}
+		return idx < len(in.Cases) && in.Cases[idx].XFail
 	}
 	parseFailed := func(log string) map[string]string {
 		// failures: "FAILED: <name>:\n\t<lines>"
@@ -539,14 +752,28 @@ func c02E2E(c *gen.Ctx, in c02E2EIn) c02E2EOut {
 	// grpc-web wrapper: "http: invalid Read on closed Body") are not failures of the property, which
 	// quantifies over inputs: re-run the failing permutations alone, twice; a permutation that
 	// passes in a re-run counts as passing (and is counted as transient).
-	for attempt := 0; attempt < 3 && !in.NoRerun && len(failed) > 0 && len(failed) <= 12 && strings.Contains(log, "Total cases:"); attempt++ {
+	unexpected := func() int {
+		n := 0
+		for name := range failed {
+			if !xfail(name) {
+				n++
+			}
+		}
+		return n
+	}
+	for attempt := 0; attempt < 3 && !in.NoRerun && unexpected() > 0 && unexpected() <= 12 && strings.Contains(log, "Total cases:"); attempt++ {
 		f2 := *flags
 		f2.Parallelism, f2.MaxServers = 1, 1
 		if len(f2.ClientCommand) > 0 {
 			f2.ClientCommand = append(append([]string{}, f2.ClientCommand...), "-p", "1")
 		}
 		for name := range failed {
-			f2.RunPatterns = append(f2.RunPatterns, name)
+			if !xfail(name) { // an expectation that is wrong on purpose fails every time
+				f2.RunPatterns = append(f2.RunPatterns, name)
+			}
+		}
+		if len(f2.RunPatterns) == 0 {
+			break
 		}
 		lp2 := &c02Printer{}
 		cc.Run(&f2, lp2, &c02Printer{})
@@ -557,6 +784,9 @@ func c02E2E(c *gen.Ctx, in c02E2EIn) c02E2EOut {
 		still := parseFailed(log2)
 		acts2, _ := readCap()
 		for name := range failed {
+			if xfail(name) {
+				continue
+			}
 			if _, bad := still[name]; !bad {
 				delete(failed, name)
 				c.E.Count("e2e-transient-failure")
@@ -570,11 +800,10 @@ func c02E2E(c *gen.Ctx, in c02E2EIn) c02E2EOut {
 		actuals[name] = a
 	}
 	ran := strings.Contains(log, "Total cases:")
-	for _, name := range names {
-		last := name[strings.LastIndex(name, "/")+1:]
-		var idx int
-		fmt.Sscanf(last, "t%d", &idx)
-		p := c02PermOut{Name: name, Case: idx, Verdict: "pass"}
+	for _, perm := range perms {
+		name := perm.Name
+		g, idx := caseOf(name)
+		p := c02PermOut{Name: name, Case: idx, G: g, Codec: int(perm.Codec), Verdict: "pass"}
 		if why, bad := failed[name]; bad {
 			p.Verdict, p.Why = "fail", why
 		} else if !ran {
@@ -752,6 +981,102 @@ func c02GenTC(r *gen.Rand, st string, nReq, nResp int, withErr bool, bin bool) c
 
 var c02Sts = []string{"unary", "clientStream", "serverStream", "halfDuplex", "fullDuplex"}
 
+// c02WeakExplicit: an expected response as a suite author could write it by hand for a case whose
+// definition has no error: the payloads and the echoed requests, no metadata (response headers and
+// trailers and request headers are compared by subsumption, so leaving them out is allowed).  It
+// differs from the derived expectation whenever the case sets any header.  wrong: the same with a
+// discrepancy no leniency covers (other payload bytes, or an error where none is defined).
+func c02WeakExplicit(tc c02TC, wrong bool) *c02Result {
+	out := &c02Result{Hdrs: []c02Hdr{}, Trls: []c02Hdr{}, Payloads: []c02Payload{}}
+	info := func(reqs []int) *c02Info {
+		return &c02Info{Hdrs: []c02Hdr{}, Reqs: append([]int{}, reqs...), Query: []c02Hdr{}}
+	}
+	hasDef := tc.HasDef && len(tc.Reqs) > 0
+	switch tc.St {
+	case "unary", "clientStream":
+		data := ""
+		if hasDef && tc.Def.Kind == "data" && len(tc.Def.Data) > 0 {
+			data = tc.Def.Data[0]
+		}
+		out.Payloads = append(out.Payloads, c02Payload{Data: data, Info: info(tc.Reqs)})
+	default:
+		if hasDef {
+			for i, d := range tc.Def.Data {
+				p := c02Payload{Data: d}
+				switch {
+				case tc.St == "fullDuplex" && i < len(tc.Reqs):
+					p.Info = info(tc.Reqs[i : i+1])
+				case tc.St != "fullDuplex" && i == 0:
+					p.Info = info(tc.Reqs)
+				}
+				out.Payloads = append(out.Payloads, p)
+			}
+		}
+	}
+	if wrong {
+		if len(out.Payloads) > 0 {
+			out.Payloads[0].Data += "ff"
+		} else {
+			out.Err = &c02ErrOut{Code: 13, Details: []c02Detail{}}
+		}
+	}
+	return out
+}
+
+// c02Unimplemented: the Unimplemented method (unary, one UnimplementedRequest) with the expected
+// response the corpus gives for it (error code unimplemented) — or, wrong, another code
+func c02Unimplemented(r *gen.Rand, wrong bool) c02TC {
+	tc := c02TC{St: "unary", Method: "unimplemented", ReqHdrs: c02GenHdrs(r, "x-req", false), Reqs: []int{100 + r.Intn(50)},
+		Def: c02Def{Hdrs: []c02Hdr{}, Trls: []c02Hdr{}, Kind: "none", Data: []string{}}}
+	code := 12
+	if wrong {
+		code = gen.Pick(r, []int{2, 5, 13})
+		tc.XFail = true
+	}
+	tc.Explicit = &c02Result{Hdrs: []c02Hdr{}, Trls: []c02Hdr{}, Payloads: []c02Payload{}, Err: &c02ErrOut{Code: code, Details: []c02Detail{}}}
+	return tc
+}
+
+// c02Decorate: with some probability turn a generated case into one that names service and method
+// itself (the defaults), or that gives its expected response itself (right, or wrong on purpose)
+func c02Decorate(r *gen.Rand, tc c02TC) c02TC {
+	if r.Chance(1, 5) && tc.Method == "" {
+		tc.Method = "explicit"
+	}
+	noErr := tc.Def.Err == nil && tc.Def.Kind != "error"
+	if noErr && len(tc.LaterDefs) == 0 && r.Chance(1, 6) {
+		tc.XFail = r.Chance(1, 3)
+		tc.Explicit = c02WeakExplicit(tc, tc.XFail)
+	}
+	return tc
+}
+
+// c02GenGetTC: a case of suite VG (reliesOnConnectGet, Connect only): mostly IdempotentUnary with
+// use_get_http_method; also cases that do not use GET at all (any stream type — the config cases of
+// a GET-supporting implementation exist for every stream type), and the unimplemented method
+func c02GenGetTC(r *gen.Rand, bin bool) c02TC {
+	switch r.Intn(10) {
+	case 0:
+		return c02Decorate(r, c02RandomTC(r, bin, 1))
+	case 1:
+		return c02Unimplemented(r, false)
+	}
+	tc := c02GenTC(r, "unary", 1, r.Intn(2), r.Chance(2, 5), bin)
+	tc.LaterDefs = nil
+	tc.Method, tc.Get = "idempotent", true
+	if r.Chance(1, 8) {
+		tc.XFail = tc.Def.Err == nil && tc.Def.Kind != "error" && r.Bool()
+		if tc.Def.Err == nil && tc.Def.Kind != "error" {
+			tc.Explicit = c02WeakExplicit(tc, tc.XFail)
+			if !tc.XFail && r.Bool() {
+				// the author lists the query parameters too
+				tc.Explicit.Payloads[0].Info.Query = []c02Hdr{{N: "connect", V: []string{"v1"}}}
+			}
+		}
+	}
+	return tc
+}
+
 func c02RandomTC(r *gen.Rand, bin bool, minReq int) c02TC {
 	st := gen.Pick(r, c02Sts)
 	nReq := 1
@@ -796,6 +1121,79 @@ func runC02(c *gen.Ctx) error {
 		}
 		c.Do("expected", tc)
 	}
+	// everything below that did not exist before the Connect GET / unimplemented / explicit-expectation
+	// extension draws from a generator of its own, so that the older streams keep their inputs per seed
+	rg := gen.NewRand(c.Seed*0x9E3779B97F4A7C15 + 0xC02)
+	// (1b) the same function on the axes it reads besides the shape: use_get_http_method under every
+	// stream type, the permutation's codec (also unspecified / the deprecated text codec: "anything
+	// but json is proto"), service and method given, IdempotentUnary, Unimplemented (no response
+	// definition: rejected unless the suite gives the expected response), explicit expected
+	// responses (must come back untouched)
+	nGet := 400
+	if c.Thorough() {
+		nGet = 8000
+	}
+	for i := 0; i < nGet; i++ {
+		st := gen.Pick(rg, c02Sts)
+		tc := c02GenTC(rg, st, rg.Intn(4), rg.Intn(4), rg.Chance(2, 5), true)
+		tc.Name = "x"
+		tc.Get, tc.Codec = rg.Chance(2, 3), rg.Intn(4)
+		switch rg.Intn(7) {
+		case 0:
+			tc.Method = "explicit"
+		case 1, 2:
+			if st == "unary" || st == "clientStream" {
+				tc.Method = "idempotent"
+			}
+		case 3:
+			tc.Method, tc.HasDef, tc.LaterDefs = "unimplemented", false, nil
+		}
+		if rg.Chance(1, 5) {
+			if tc.Def.Err == nil && tc.Def.Kind != "error" && tc.Method != "unimplemented" {
+				tc.Explicit = c02WeakExplicit(tc, rg.Chance(1, 3))
+				if tc.Get && rg.Bool() && len(tc.Explicit.Payloads) > 0 && tc.Explicit.Payloads[0].Info != nil {
+					tc.Explicit.Payloads[0].Info.Query = []c02Hdr{{N: "encoding", V: []string{"json"}}, {N: "x", V: []string{}}}
+				}
+			} else {
+				id := rg.Intn(9)
+				tc.Explicit = &c02Result{Hdrs: c02GenHdrs(rg, "x-e", false), Trls: []c02Hdr{}, Payloads: []c02Payload{},
+					Err: &c02ErrOut{Code: rg.Range(1, 16), Details: []c02Detail{{Other: &id}, {Info: &c02Info{Hdrs: []c02Hdr{}, Reqs: []int{7}, Query: []c02Hdr{}}}}}}
+			}
+		}
+		c.Do("expected", tc)
+		c.E.Count("expected-axes:" + map[bool]string{true: "get", false: "post"}[tc.Get] + ":" + tc.Method)
+	}
+	// (1c) the same through the library (parseTestSuites, expandCases, populateExpectedResponses):
+	// derived and explicit expectations side by side in one suite, plus the GET suite — what every
+	// permutation ends up with must be what the model says for that permutation's codec
+	nLib := 6
+	if c.Thorough() {
+		nLib = 60
+	}
+	for k := 0; k < nLib; k++ {
+		in := c02LibIn{Mode: gen.Pick(rg, []string{"client", "server", "both"}), Versions: []int{1, 2}, Protos: []int{1, 2, 3}, Codecs: []int{1, 2}, Comps: []int{1, 2}}
+		for i := 0; i < 10; i++ {
+			in.Cases = append(in.Cases, c02Decorate(rg, c02RandomTC(rg, true, 0)))
+		}
+		in.Cases = append(in.Cases, c02Unimplemented(rg, rg.Chance(1, 3)))
+		for i := 0; i < 6; i++ {
+			in.GetCases = append(in.GetCases, c02GenGetTC(rg, true))
+		}
+		if rg.Bool() {
+			in.GetComps = []int{1}
+		}
+		if k%3 == 2 {
+			// one case nothing can be derived for: the whole load must fail
+			bad := c02Unimplemented(rg, false)
+			bad.Explicit = nil
+			if rg.Bool() {
+				in.Cases = append(in.Cases, bad)
+			} else {
+				in.GetCases = append(in.GetCases, bad)
+			}
+		}
+		c.Do("libexpected", in)
+	}
 	// (2) loading parseable but odd suites never crashes
 	for _, in := range c02LoadCases(r) {
 		c.Do("load", in)
@@ -838,11 +1236,27 @@ func runC02(c *gen.Ctx) error {
 				minReq = 1
 			}
 			for i := 0; i < perRun; i++ {
-				in.Cases = append(in.Cases, c02RandomTC(r, true, minReq))
+				in.Cases = append(in.Cases, c02Decorate(rg, c02RandomTC(r, true, minReq)))
 			}
+			// the unimplemented method (every peer, the gRPC ones too), now and then with a wrong expectation
+			in.Cases = append(in.Cases, c02Unimplemented(rg, k%5 == 3))
 			if in.Mode != "client" && in.Mode != "grpcclient" && k < 8 {
 				// the empty request stream of every stream type, always
 				in.Cases = append(in.Cases, c02GenTC(r, "clientStream", 0, 0, false, false), c02GenTC(r, "halfDuplex", 0, 0, false, false), c02GenTC(r, "fullDuplex", 0, 0, false, false))
+			}
+		}
+		// suite VG next to suite V in the runs whose peers speak Connect: GET against the
+		// reference-mode reference server only without compression (known finding F28, below)
+		if in.Mode == "client" || in.Mode == "server" || in.Mode == "both" {
+			nGetCases := 5
+			if k == 0 {
+				nGetCases = 8
+			}
+			for i := 0; i < nGetCases; i++ {
+				in.GetCases = append(in.GetCases, c02GenGetTC(rg, true))
+			}
+			if in.Mode != "server" {
+				in.GetComps = []int{1}
 			}
 		}
 		ins = append(ins, in)
@@ -865,8 +1279,21 @@ func runC02(c *gen.Ctx) error {
 	for _, st := range []string{"clientStream", "halfDuplex", "fullDuplex"} {
 		f27.Cases = append(f27.Cases, c02GenTC(r, st, 0, 0, false, false))
 	}
-	ins = append(ins, f07, f27)
-	opsOf = append(opsOf, "e2e-f07", "e2e-f27")
+	// known finding F28: a GET call is never compressed by the reference client (connect-go compresses
+	// a GET only to make an over-long URL fit), while the reference server in reference mode insists on
+	// the permutation's compression: only that symptom may appear, and only on the GET calls
+	f28 := c02E2EIn{Mode: gen.Pick(rg, []string{"client", "both"}), Versions: []int{1, 2}, Protos: []int{1}, Codecs: []int{1, 2}, Comps: []int{1, allComps[1+rg.Intn(5)]}, NoRerun: true}
+	for i := 0; i < 3; i++ {
+		tc := c02GenTC(rg, "unary", 1, rg.Intn(2), rg.Chance(2, 5), false)
+		tc.LaterDefs = nil
+		tc.Method, tc.Get = "idempotent", true
+		f28.GetCases = append(f28.GetCases, tc)
+	}
+	post := c02GenTC(rg, "unary", 1, 1, false, false)
+	post.LaterDefs = nil
+	f28.GetCases = append(f28.GetCases, post)
+	ins = append(ins, f07, f27, f28)
+	opsOf = append(opsOf, "e2e-f07", "e2e-f27", "e2e-f28")
 	c.DoParallelOps(opsOf, ins, 4)
 	return nil
 }
